@@ -275,12 +275,12 @@ type vhMintQuote struct {
 type vhMeltQuote struct {
 	Amount, FeeReserve uint64
 	State              nut05.State
-	Outcome            int // scripted outcome of the payment: 0 paid, 1 pending, 2 failed (unpaid)
+	Outcome            int    // scripted outcome of the payment: 0 paid, 1 pending, 2 failed (unpaid)
 	GiveChange         bool   // NUT-08 supported by this mint (harnesses that do not set it see a mint without change, as gonuts' own mint)
 	ActualFee          uint64 // what the payment really cost (<= FeeReserve); the rest is returned as NUT-08 change
 	Change             cashu.BlindedSignatures
 	Blank              cashu.BlindedMessages // blank outputs of the melt request
-	Lose               int // transport fault on POST /v1/melt/bolt11: 0 none, 1 the request never reaches the mint, 2 the response is lost
+	Lose               int                   // transport fault on POST /v1/melt/bolt11: 0 none, 1 the request never reaches the mint, 2 the response is lost
 }
 
 var vhTheMint *vhMint
